@@ -1,6 +1,6 @@
 (* End-to-end cases on the posting-list indexes: model leg (Model/Index.v against the real code). *)
 From Coq Require Import List NArith ZArith Bool.
-From BE Require Import Model.GoTypes Model.GoVal Model.Parsers Model.Index Model.Spec Corr.Common.
+From BE Require Import Model.GoTypes Model.GoVal Model.Parsers Model.Index Model.RangeIdx Model.Spec Corr.Common.
 From BE Require Gen.ConstsGen.
 From BE Require Export Corr.SpecE2E.
 Import ListNotations.
@@ -34,6 +34,20 @@ Definition query_matches (ix : index) (qr : assignment * ires) : option bool :=
   | _, _ => Some false
   end.
 
+Definition holder_entries (h : holder) : list N :=
+  match h with
+  | HDefault pls => flat_map snd pls
+  | HAc vals => flat_map snd vals
+  | HRange kv pcs => flat_map snd kv ++ flat_map RangeIdx.pe pcs
+  end.
+Definition index_entries (ix : index) : list N :=
+  flat_map (fun ec => holder_entries (ec_default ec) ++ flat_map (fun fh => holder_entries (snd fh)) (ec_fields ec)) (ix_conts ix).
+Definition state_matches (ix : index) (o : option (list N * list N)) : option bool :=
+  match o with
+  | None => Some true
+  | Some (es, z) => Some (eqb_list N.eqb (sortN es) (sortN (index_entries ix)) && eqb_list N.eqb z (ix_z ix))
+  end.
+
 Fixpoint all_ok (l : list (option bool)) : bool * bool :=    (* (no mismatch, everything modelled) *)
   match l with
   | [] => (true, true)
@@ -51,11 +65,12 @@ Definition model_verdict (c : ecase) : bool * bool :=
     (* the model stops a document at its first failure exactly like the code, so states agree only
        when the outcomes agree; later comparisons are meaningful in either case *)
     let ix := build_index st in
-    all_ok (adds ++ map (query_matches ix) (k_queries c))
+    all_ok (adds ++ state_matches ix (k_state c) :: map (query_matches ix) (k_queries c))
   end.
 
 Definition check (c : ecase) : verdict :=
   let '(s, d, g) := spec_verdict c in
   let '(m, modelled) := model_verdict c in
-  mk_verdict m s (d && modelled) g.
+  (* once a step leaves the modelled fragment the model state is no longer comparable *)
+  mk_verdict (m || negb modelled) s (d && modelled) g.
 Definition run (cs : list ecase) := check_all check cs.
